@@ -38,6 +38,9 @@ def module_constants(mod, _depth=0):
                 out[s.targets[0].id] = v
             elif isinstance(v, ast.UnaryOp) and isinstance(v.op, ast.USub) and isinstance(v.operand, ast.Constant):
                 out[s.targets[0].id] = v
+            elif isinstance(v, ast.Call) and dotted(v.func) == 're.compile' and v.args and not v.keywords \
+                    and all(isinstance(a, ast.Constant) or (isinstance(a, ast.Attribute) and dotted(a) and dotted(a).startswith('re.')) for a in v.args):
+                out[s.targets[0].id] = v          # a pattern compiled once at import: the immutable value of re.compile(<literal>)
         elif isinstance(s, ast.AnnAssign) and isinstance(s.target, ast.Name) and isinstance(s.value, ast.Constant) and isinstance(s.value.value, (int, float, str)):
             counts[s.target.id] = counts.get(s.target.id, 0) + 1
             out[s.target.id] = s.value
@@ -1097,6 +1100,38 @@ def canonical_func(fi):
                     body.pop()
     sink_returns(node.body)
 
+    def join_same_returns(body):
+        """`if c: A; return v` followed by `REST; return v` (the same plain name, not re-bound in REST) is `if c: A else: REST`
+        followed by one `return v`: a guard clause that leaves with the value the function returns anyway."""
+        changed = True
+        while changed:
+            changed = False
+            if len(body) < 3 or not (isinstance(body[-1], ast.Return) and isinstance(body[-1].value, (ast.Name, ast.Constant))):
+                return
+            final = ast.dump(body[-1].value)
+            for i in range(len(body) - 2, -1, -1):
+                st = body[i]
+                if isinstance(st, ast.If) and not st.orelse and st.body and isinstance(st.body[-1], ast.Return) and st.body[-1].value is not None \
+                        and ast.dump(st.body[-1].value) == final:
+                    rest = body[i + 1:-1]
+                    if not rest:
+                        break
+                    if isinstance(body[-1].value, ast.Name):
+                        v = body[-1].value.id
+                        if any(isinstance(x, ast.Name) and x.id == v and isinstance(x.ctx, (ast.Store, ast.Del)) for r_ in rest for x in ast.walk(r_)):
+                            break
+                    if any(isinstance(x, ast.Return) for r_ in rest for x in ast.walk(r_)):
+                        break
+                    arm = st.body[:-1]
+                    if arm:
+                        new_if = ast.If(test=st.test, body=arm, orelse=rest)
+                    else:
+                        new_if = ast.If(test=ast.UnaryOp(op=ast.Not(), operand=st.test), body=rest, orelse=[])
+                    body[i:-1] = [ast.fix_missing_locations(ast.copy_location(new_if, st))]
+                    changed = True
+                    break
+    join_same_returns(node.body)
+
     def forward_substitute(body):
         """`t = e` directly followed by the only statement that reads t (once, at a position that is always evaluated):
         the temporary is folded into that statement, so that the shape rules below see one statement, not two."""
@@ -1211,6 +1246,55 @@ def canonical_func(fi):
                         body.insert(first_app - 1, body.pop(i))
             i += 1
     fold_appends(node.body)
+
+    def eliminate_flags(body):
+        """`f = False; S; if f: break` where S sets `f = True` only as the last thing it does (in an arm of a conditional or in
+        the else clause of a loop, never inside a nested loop body) is S with `break` in place of `f = True`; the same for
+        `return ..` / `continue` instead of `break`."""
+        for st in body:
+            for field in ('body', 'orelse', 'finalbody'):
+                sub = getattr(st, field, None)
+                if isinstance(sub, list) and sub and isinstance(sub[0], ast.stmt) and not isinstance(st, (ast.FunctionDef, ast.ClassDef)):
+                    eliminate_flags(sub)
+            for h in getattr(st, 'handlers', []) or []:
+                eliminate_flags(h.body)
+        i = 0
+        while i + 2 < len(body):
+            a, s_, t_ = body[i], body[i + 1], body[i + 2]
+            ok = isinstance(a, ast.Assign) and len(a.targets) == 1 and isinstance(a.targets[0], ast.Name) and isinstance(a.value, ast.Constant) and a.value.value is False \
+                and isinstance(s_, (ast.For, ast.While, ast.If)) and isinstance(t_, ast.If) and not t_.orelse and isinstance(t_.test, ast.Name) \
+                and t_.test.id == a.targets[0].id and len(t_.body) == 1 and isinstance(t_.body[0], (ast.Break, ast.Continue, ast.Return))
+            if ok:
+                f = a.targets[0].id
+                sets = []
+
+                def tails(lst, allowed):
+                    # statements of `lst`; `allowed`: the list ends S
+                    for k, x in enumerate(lst):
+                        last = allowed and k == len(lst) - 1
+                        if isinstance(x, ast.Assign) and len(x.targets) == 1 and isinstance(x.targets[0], ast.Name) and x.targets[0].id == f:
+                            if last and isinstance(x.value, ast.Constant) and x.value.value is True:
+                                sets.append((lst, k))
+                            else:
+                                return False
+                        elif isinstance(x, ast.If):
+                            if not tails(x.body, last) or not tails(x.orelse, last):
+                                return False
+                        elif isinstance(x, (ast.For, ast.While)):
+                            if f in names_in(ast.Module(body=x.body, type_ignores=[])) or not tails(x.orelse, last):
+                                return False
+                        elif f in names_in(x):
+                            return False
+                    return True
+                good = tails([s_], True)
+                if good and sets and uses_in_function(f) == 2 + len(sets):
+                    for lst, k in sets:
+                        lst[k] = ast.copy_location(copy_ast(t_.body[0]), lst[k])
+                    del body[i + 2]
+                    del body[i]
+                    continue
+            i += 1
+    eliminate_flags(node.body)
     forward_substitute(node.body)
 
     class D(ast.NodeTransformer):
